@@ -348,6 +348,29 @@ class C04(Proto):
                   "reads take the oldest accepted telegram; the expectation restarts at 0 on (re)connect.")
 
 
+class C05(Proto):
+    id = "C05"
+    lean_module = "Props.C05"
+    streams = [("C05", None, 0.5), ("C03", "knxdrv", 0.25), ("C04", "knxdrv", 0.25)]
+    budgets = {"quick": 300, "thorough": 3000}
+    rule = ("composed-system walks under virtual time: the real client against an in-harness rule-following gateway over a "
+            "network that loses (0..40 %), duplicates (0..30 %, up to 3 copies), delays (up to 2 resend intervals + 5 ms, so "
+            "datagrams overtake each other and outlive resends) every datagram of both directions, 1..12 telegrams per "
+            "direction and walks of 280 + 270 telegrams across the wrap at 256, three (resend, timeout) settings; one directed "
+            "walk (request delivered, all its acknowledgements lost, number reused). The monitor IS the property: bus log vs "
+            "successful Sends, Inbound vs gateway-acknowledged. Plus the C03 / C04 script streams, compared exactly with the "
+            "model (the tie of the client model whose sender/receiver rules the abstract proof is about). distinct = walks/scripts.")
+    technique = "Lean 4 proof (inductive invariant of the abstract stop-and-wait system with lossy/duplicating/reordering channels, unbounded telegram count, modulus 256) + witness by kernel evaluation + composed walks of the real client as oracle"
+    level_text = ("Theorem (_partial: histories without an abandoned exchange): for EVERY interleaving of transmissions, "
+                  "retransmissions, losses, duplicated and reordered deliveries, the exchanges completed successfully are 0..C-1 in "
+                  "order, the receiver passed on 0..G-1 each exactly once in order, C <= G <= C+1: every telegram whose Send "
+                  "succeeded is on the bus exactly once in completion order, nothing twice; by symmetry the same for gateway -> "
+                  "client. The client's response timeout DOES abandon (counter not advanced): `abandon_breaks_it` is a 10-label "
+                  "witness (success for a telegram that never reached the bus), replayed on the real client by the directed walk: "
+                  "recorded as known finding D18, any other violation of the monitor is reported.")
+    partial = "the full property fails on the current tree (known finding D18); proved only for abandon-free histories"
+
+
 class C09(Proto):
     id = "C09"
     lean_module = "Props.C09"
@@ -432,7 +455,7 @@ class C14(Proto):
                   "and read in order; after Close Inbound is closed.")
 
 
-ALL = {c.id: c for c in [C12, C01, C02, C03, C04, C06, C07, C08, C09, C10, C11, C13, C14, C15, C17, C18, C19]}
+ALL = {c.id: c for c in [C12, C01, C02, C03, C04, C05, C06, C07, C08, C09, C10, C11, C13, C14, C15, C17, C18, C19]}
 NOT_CLAIMED = {}
 
 
@@ -560,7 +583,8 @@ def run(prop, tier, seed):
             binary[extra] = os.path.join(workdir, extra)
             shutil.copy(b2, binary[extra])
         drivers = {}
-        for dn in sorted({d for _, d, _ in (P.streams or [(P.id, "knxdrv", 1.0)])}):
+        drivers[None] = None
+        for dn in sorted({d for _, d, _ in (P.streams or [(P.id, "knxdrv", 1.0)]) if d}):
             src = os.path.join(LEAN, ".lake", "build", "bin", dn)
             if dn == "gendrv" and not gen_ok:
                 drivers[dn] = None  # the oracle of that stream still runs on the implementation
